@@ -438,3 +438,27 @@ Example p10_as_is :
   p10_run p10_hash 100 [OAdd (mkNode 1 0); ORemove (mkNode 1 0); OAdd (mkNode 1 1)] =
     run p10_hash 100 [OAdd (mkNode 1 0); ORemove (mkNode 1 0); OAdd (mkNode 1 1)].
 Proof. vm_compute. auto. Qed.
+
+(* (9) seeded change C15-11 — the hash input is assembled in ONE scratch buffer of the ring ("guarded by lock"),
+   which Get fills and hashes while holding only the READ lock: two lookups overlap, the second one's bytes
+   replace the first one's before they are hashed, and the first lookup answers the second key's owner although
+   the ring did not change.  [lrun true]: the shared buffer. *)
+Definition p11_ring : state := run p10_hash 100 [OAdd (mkNode 1 0); OAdd (mkNode 2 1)].
+Definition p11_keys : list (Z * Z) := [(1050, 0); (2050, 0)].
+
+Theorem shared_buffer_gets_refuted :
+  exists s keys steps t g,
+    In (t, g) (lrun true s keys (fun _ => None) steps) /\
+    g <> get s (fst (key_of keys t)) (snd (key_of keys t)).
+Proof.
+  exists p11_ring, p11_keys, [LCopy 0; LCopy 1; LHash 1; LHash 0]%nat, 0%nat, (GSome (mkNode 2 1)).
+  split; [vm_compute; auto | vm_compute; discriminate].
+Qed.
+
+(* the same interleaving with private bytes (the code as it is), and the shared buffer without overlap *)
+Example p11_as_is :
+  lrun false p11_ring p11_keys (fun _ => None) [LCopy 0; LCopy 1; LHash 1; LHash 0]%nat =
+    [(1%nat, GSome (mkNode 2 1)); (0%nat, GSome (mkNode 1 0))] /\
+  lrun true p11_ring p11_keys (fun _ => None) [LCopy 0; LHash 0; LCopy 1; LHash 1]%nat =
+    [(0%nat, GSome (mkNode 1 0)); (1%nat, GSome (mkNode 2 1))].
+Proof. vm_compute. auto. Qed.
